@@ -780,6 +780,10 @@ type miniBroker struct {
 	held         []func()           // withheld answers, released by releaseHeld
 	heldSeen     atomic.Int32       // withheld (or conflict-answered) resume requests that reached the broker
 	resumedIDs   map[uuid.UUID]int  // successful upstream resumes per stream
+	// abandoned-close / close-option scenarios
+	holdClose    map[uuid.UUID]bool  // close responses of these streams are withheld
+	nextAlias    *uint32             // the alias of the next open response (the broker re-uses an alias)
+	closeSession map[uuid.UUID][]bool // CloseSession flag of every close request, per stream
 }
 
 func (m *miniBroker) releaseHeld() {
@@ -808,6 +812,10 @@ func newMiniBroker() *miniBroker {
 			m.mu.Lock()
 			id := uuid.New()
 			alias := uint32(len(m.ids))
+			if m.nextAlias != nil {
+				alias = *m.nextAlias
+				m.nextAlias = nil
+			}
 			m.ids = append(m.ids, id)
 			m.aliasOf[alias] = id
 			m.mu.Unlock()
@@ -860,7 +868,16 @@ func newMiniBroker() *miniBroker {
 				s.Send(&message.UpstreamChunkAck{StreamIDAlias: v.StreamIDAlias, Results: []*message.UpstreamChunkResult{{SequenceNumber: v.StreamChunk.SequenceNumber, ResultCode: message.ResultCodeSucceeded}}})
 			}
 		case *message.UpstreamCloseRequest:
-			s.Send(&message.UpstreamCloseResponse{RequestID: v.RequestID, ResultCode: message.ResultCodeSucceeded})
+			m.mu.Lock()
+			if m.closeSession == nil {
+				m.closeSession = map[uuid.UUID][]bool{}
+			}
+			m.closeSession[v.StreamID] = append(m.closeSession[v.StreamID], v.ExtensionFields != nil && v.ExtensionFields.CloseSession)
+			hold := m.holdClose[v.StreamID]
+			m.mu.Unlock()
+			if !hold {
+				s.Send(&message.UpstreamCloseResponse{RequestID: v.RequestID, ResultCode: message.ResultCodeSucceeded})
+			}
 		case *message.DownstreamOpenRequest:
 			if m.answerAll {
 				s.Send(&message.DownstreamOpenResponse{RequestID: v.RequestID, AssignedStreamID: uuid.New(), ResultCode: message.ResultCodeSucceeded, ServerTime: time.Unix(1700000000, 0)})
@@ -1242,8 +1259,172 @@ func runSlowResume(variant string) (direct string) {
 	return ""
 }
 
+// runAbandonedClose: upstream A (alias 0) has one unacknowledged chunk; its Close is given up by the
+// caller (100 ms context) while the broker withholds the close response; the broker then sends A's
+// ack late and gives A's alias to the next opened upstream B.  B must not see anything addressed to
+// A: its ack hook stays silent and its own unacknowledged chunk stays stored.
+func runAbandonedClose() (direct string) {
+	m := newMiniBroker()
+	defer m.b.Release()
+	store := &countStorage{VerifSentStorage: iscp.VerifNewInmemSentStorage(), stored: make(chan [2]uint64, 64)}
+	conn, err := iscp.Connect(m.b.Address, broker.TransportName, iscp.VerifWithSentStorage(store),
+		iscp.WithConnPingInterval(20*time.Millisecond), iscp.WithConnPingTimeout(5*time.Second))
+	if err != nil {
+		return "harness: connect failed: " + err.Error()
+	}
+	defer func() {
+		ctx, cancel := context.WithTimeout(context.Background(), time.Second)
+		go func() { defer cancel(); conn.Close(ctx) }()
+	}()
+	ctx, cancel := context.WithTimeout(context.Background(), 4*wd)
+	defer cancel()
+	m.mu.Lock()
+	m.noAck = true
+	m.mu.Unlock()
+	a, err := conn.OpenUpstream(ctx, "a", iscp.WithUpstreamFlushPolicyNone(), iscp.WithUpstreamQoS(message.QoSReliable), iscp.WithUpstreamCloseTimeout(3*time.Second))
+	if err != nil {
+		return "harness: open failed: " + err.Error()
+	}
+	if err := a.WriteDataPoints(ctx, &message.DataID{Name: "n1", Type: "t"}, &message.DataPoint{ElapsedTime: 1, Payload: []byte{1}}); err != nil {
+		return "harness: write failed: " + err.Error()
+	}
+	if err := a.Flush(ctx); err != nil {
+		return "harness: flush failed: " + err.Error()
+	}
+	if !broker.WaitFor(wd, func() bool { return len(m.received(a.ID)) == 1 }) {
+		return "harness: A's chunk never arrived"
+	}
+	m.mu.Lock()
+	m.holdClose = map[uuid.UUID]bool{a.ID: true}
+	m.mu.Unlock()
+	cctx, ccancel := context.WithTimeout(context.Background(), 100*time.Millisecond)
+	cerr := a.Close(cctx)
+	ccancel()
+	if cerr == nil {
+		return "harness: the abandoned Close returned nil"
+	}
+	if !broker.WaitFor(wd, func() bool { m.mu.Lock(); defer m.mu.Unlock(); return len(m.closeSession[a.ID]) >= 1 }) {
+		return "harness: A's close request never reached the broker"
+	}
+	// the late ack for A's chunk, addressed to A's alias
+	m.b.Current().Send(&message.UpstreamChunkAck{StreamIDAlias: 0, Results: []*message.UpstreamChunkResult{{SequenceNumber: 1, ResultCode: message.ResultCodeSucceeded}}})
+	time.Sleep(20 * time.Millisecond)
+	// the broker (which closed A) re-uses alias 0 for the next stream
+	zero := uint32(0)
+	m.mu.Lock()
+	m.nextAlias = &zero
+	m.mu.Unlock()
+	var hook atomic.Int32
+	b2, err := conn.OpenUpstream(ctx, "b", iscp.WithUpstreamFlushPolicyNone(), iscp.WithUpstreamQoS(message.QoSReliable),
+		iscp.WithUpstreamReceiveAckHooker(iscp.ReceiveAckHookerFunc(func(uuid.UUID, iscp.UpstreamChunkResult) { hook.Add(1) })))
+	if err != nil {
+		return "harness: open of B failed: " + err.Error()
+	}
+	if err := b2.WriteDataPoints(ctx, &message.DataID{Name: "n1", Type: "t"}, &message.DataPoint{ElapsedTime: 2, Payload: []byte{2}}); err != nil {
+		return "harness: B's write failed: " + err.Error()
+	}
+	if err := b2.Flush(ctx); err != nil {
+		return "harness: B's flush failed: " + err.Error()
+	}
+	if !broker.WaitFor(wd, func() bool { return len(m.received(b2.ID)) == 1 }) {
+		return "B's first chunk never reached the broker although B was opened after A had been closed"
+	}
+	time.Sleep(150 * time.Millisecond)
+	storedB := func() int { mm, _ := store.VerifSentStorage.List(context.Background(), b2.ID); return len(mm) }
+	var bad []string
+	if n := hook.Load(); n != 0 {
+		bad = append(bad, fmt.Sprintf("B's ack hook reported %d result(s) although the broker sent B no ack", n))
+	}
+	if storedB() != 1 {
+		bad = append(bad, "B's unacknowledged chunk (sequence number 1) left the sent storage")
+	}
+	if len(bad) > 0 {
+		return "after an abandoned Close of upstream A (close response withheld, caller's context expired) and a late ack for A, the next upstream B - given A's stream alias by the broker - inherited what was addressed to A: " + strings.Join(bad, "; ")
+	}
+	// B's own ack is delivered normally
+	m.b.Current().Send(&message.UpstreamChunkAck{StreamIDAlias: 0, Results: []*message.UpstreamChunkResult{{SequenceNumber: 1, ResultCode: message.ResultCodeSucceeded}}})
+	if !broker.WaitFor(wd, func() bool { return hook.Load() == 1 && storedB() == 0 }) {
+		return fmt.Sprintf("B's own ack was not processed (hook %d, stored %d)", hook.Load(), storedB())
+	}
+	return ""
+}
+
+// runCloseOption: three upstreams; B is closed with WithUpstreamCloseEnableCloseSession(), A and C
+// (and a stream opened afterwards) plainly: only B's close request may carry CloseSession.
+func runCloseOption() (direct string) {
+	m := newMiniBroker()
+	defer m.b.Release()
+	conn, err := iscp.Connect(m.b.Address, broker.TransportName, iscp.WithConnPingInterval(20*time.Millisecond), iscp.WithConnPingTimeout(5*time.Second))
+	if err != nil {
+		return "harness: connect failed: " + err.Error()
+	}
+	defer func() {
+		ctx, cancel := context.WithTimeout(context.Background(), time.Second)
+		go func() { defer cancel(); conn.Close(ctx) }()
+	}()
+	ctx, cancel := context.WithTimeout(context.Background(), 4*wd)
+	defer cancel()
+	open := func(name string) (*iscp.Upstream, string) {
+		u, err := conn.OpenUpstream(ctx, name, iscp.WithUpstreamFlushPolicyNone(), iscp.WithUpstreamQoS(message.QoSReliable))
+		if err != nil {
+			return nil, "harness: open failed: " + err.Error()
+		}
+		if err := u.WriteDataPoints(ctx, &message.DataID{Name: "n1", Type: "t"}, &message.DataPoint{ElapsedTime: 1, Payload: []byte{1}}); err != nil {
+			return nil, "harness: write failed: " + err.Error()
+		}
+		return u, ""
+	}
+	a, d := open("a")
+	if d != "" {
+		return d
+	}
+	b2, d := open("b")
+	if d != "" {
+		return d
+	}
+	c3, d := open("c")
+	if d != "" {
+		return d
+	}
+	if err := b2.Close(ctx, iscp.WithUpstreamCloseEnableCloseSession()); err != nil {
+		return "harness: close of B failed: " + err.Error()
+	}
+	if err := a.Close(ctx); err != nil {
+		return "harness: close of A failed: " + err.Error()
+	}
+	d4, d := open("d")
+	if d != "" {
+		return d
+	}
+	if err := c3.Close(ctx); err != nil {
+		return "harness: close of C failed: " + err.Error()
+	}
+	if err := d4.Close(ctx); err != nil {
+		return "harness: close of D failed: " + err.Error()
+	}
+	m.mu.Lock()
+	defer m.mu.Unlock()
+	var bad []string
+	want := map[string]bool{"A": false, "B": true, "C": false, "D": false}
+	for name, u := range map[string]*iscp.Upstream{"A": a, "B": b2, "C": c3, "D": d4} {
+		got := m.closeSession[u.ID]
+		if len(got) != 1 || got[0] != want[name] {
+			bad = append(bad, fmt.Sprintf("%s: CloseSession %v (expected [%v])", name, got, want[name]))
+		}
+	}
+	sort.Strings(bad)
+	if len(bad) > 0 {
+		return "only upstream B was closed with WithUpstreamCloseEnableCloseSession(); the close requests the broker received: " + strings.Join(bad, "; ")
+	}
+	return ""
+}
+
 func runScen(name, arg string, ms int) string {
 	switch name {
+	case "abandoned-close":
+		return runAbandonedClose()
+	case "close-option":
+		return runCloseOption()
 	case "slow-resume":
 		return runSlowResume(arg)
 	case "shared-timer":
@@ -1351,7 +1532,7 @@ func main() {
 				Ms       int    `json:"ms"`
 			} `json:"input"`
 		}
-		if json.Unmarshal(b, &sc) == nil && (sc.Input.Scenario == "shared-timer" || sc.Input.Scenario == "deadline-neighbour" || sc.Input.Scenario == "slow-resume") {
+		if json.Unmarshal(b, &sc) == nil && (sc.Input.Scenario == "shared-timer" || sc.Input.Scenario == "deadline-neighbour" || sc.Input.Scenario == "slow-resume" || sc.Input.Scenario == "abandoned-close" || sc.Input.Scenario == "close-option") {
 			d := runScen(sc.Input.Scenario, sc.Input.Arg, sc.Input.Ms)
 			w.Add(coqfmt.Case{Term: "mkIsoCase []", Input: sc.Input, Kind: sc.Input.Scenario, Direct: d, Nontrivial: true})
 			if err := w.Flush(*seed, *tier, "replay of a timer/deadline scenario", false, nil); err != nil {
@@ -1506,6 +1687,7 @@ func main() {
 		}
 		scens := []scen{{"shared-timer", "default-close", 0}, {"shared-timer", "default-three-close", 0}, {"shared-timer", "sameobj-close", 0},
 			{"shared-timer", "default-resume-close", 0},
+			{"abandoned-close", "", 0}, {"close-option", "", 0},
 			{"slow-resume", "downstream-withheld", 0}, {"slow-resume", "upstream-withheld", 0}, {"slow-resume", "upstream-conflict", 0},
 			{"deadline-neighbour", "open-upstream", 150}, {"deadline-neighbour", "open-downstream", 120}, {"deadline-neighbour", "send-metadata", 200}}
 		res := make([]string, len(scens))
@@ -1536,7 +1718,7 @@ func main() {
 				Kind: "dead-downstream-flood", Direct: d, Nontrivial: true, Seed: uint64(flood)})
 		}
 	}
-	rule := "after an outage the broker withholds one stream's resume answer (a downstream's, an upstream's, or answers an upstream's with conflict three times): meanwhile a new OpenUpstream, a new OpenDownstream and SendBaseTime must succeed within 1.5 s and the sibling reliable upstream must resume and retransmit its unacknowledged chunk; upstreams sharing the library's default flush-policy object (no flush-policy option; real 100 ms ticker) or one policy object passed to all: after a neighbour closes (also after a common outage) a small write to the survivor must still be flushed by its timer; a request (upstream open / downstream open / metadata) with a 120-200 ms deadline left unanswered on a healthy connection must cause no redial, no disconnect/reconnect event, no resume request or event, no retransmission and no cleared store for the neighbours; a downstream whose open was refused (its subscriptions stay registered, nobody reads) is flooded with 40 / 1100 chunks, then a live downstream must still get its chunk and a live upstream its ack; the broker gives the first stream STREAM ALIAS 0 (also after a resume); lifecycle operations of a neighbour happen on the same wire connection: an open refused with a zero alias in the response, a resume refused with a zero alias, an application Close while the neighbour's resume request is still unanswered (its close request travels on the new connection where it has no alias entry) - afterwards the alias-0 stream must still send chunks and receive acks. 2-3 upstreams (the first reliable, the others reliable or unreliable) on one connection: interleaved write+flush, per-stream acks, optional close of one stream, optional outage (loud cut, writes of any stream before it is noticed, all streams resume: unreliable ones answered first), more traffic, closes in random order; each stream's observables are compared with its solo run through the same history. non-trivial = every stream has a solo run to compare with; distinct = distinct Coq case terms"
+	rule := "an abandoned Close of A (close response withheld, 100 ms context) + a late ack for A + the broker re-using A's stream alias for the next upstream B: B's ack hook stays silent and its unacknowledged chunk stays stored; three upstreams, one closed with WithUpstreamCloseEnableCloseSession(): only its close request carries CloseSession; after an outage the broker withholds one stream's resume answer (a downstream's, an upstream's, or answers an upstream's with conflict three times): meanwhile a new OpenUpstream, a new OpenDownstream and SendBaseTime must succeed within 1.5 s and the sibling reliable upstream must resume and retransmit its unacknowledged chunk; upstreams sharing the library's default flush-policy object (no flush-policy option; real 100 ms ticker) or one policy object passed to all: after a neighbour closes (also after a common outage) a small write to the survivor must still be flushed by its timer; a request (upstream open / downstream open / metadata) with a 120-200 ms deadline left unanswered on a healthy connection must cause no redial, no disconnect/reconnect event, no resume request or event, no retransmission and no cleared store for the neighbours; a downstream whose open was refused (its subscriptions stay registered, nobody reads) is flooded with 40 / 1100 chunks, then a live downstream must still get its chunk and a live upstream its ack; the broker gives the first stream STREAM ALIAS 0 (also after a resume); lifecycle operations of a neighbour happen on the same wire connection: an open refused with a zero alias in the response, a resume refused with a zero alias, an application Close while the neighbour's resume request is still unanswered (its close request travels on the new connection where it has no alias entry) - afterwards the alias-0 stream must still send chunks and receive acks. 2-3 upstreams (the first reliable, the others reliable or unreliable) on one connection: interleaved write+flush, per-stream acks, optional close of one stream, optional outage (loud cut, writes of any stream before it is noticed, all streams resume: unreliable ones answered first), more traffic, closes in random order; each stream's observables are compared with its solo run through the same history. non-trivial = every stream has a solo run to compare with; distinct = distinct Coq case terms"
 	if err := w.Flush(*seed, *tier, rule, false, nil); err != nil {
 		fmt.Fprintln(os.Stderr, err)
 		os.Exit(2)
